@@ -39,29 +39,78 @@ def _insert_sites(ctx):
     return out
 
 
+def _protection_cases(ctx, root_body, relevant):
+    """case evaluation (P11): run the middleware for every valuation of (will_encrypt, will_sign, client-state-empty); -> valuations under
+    which some path reaches ResponseCookies::insert, number of paths"""
+    from ..absint_std import StdSem, TagInterp
+
+    class Sem(StdSem):
+        crate = CR
+
+        def __init__(self, fb, vals):
+            super().__init__(fb)
+            self.vals, self.reached = vals, False
+
+        def domain_call(self, interp, path, body, bb, term, short):
+            d = term.get('dest')
+            dk = (body.id, d['l']) if d is not None and not d.get('p') else None
+            v = {WILL_E: 'e', WILL_S: 's', IS_EMPTY: 'c'}.get(short)
+            if v is not None and dk is not None:
+                path.alias.pop(dk, None)
+                path.tags.pop(dk, None)
+                path.memo[dk] = self.vals[v]
+                return [('next', path)]
+            if short == INSERT:
+                self.reached = True
+            return None
+
+        def descend_into(self, short):
+            return short in relevant and short != FINALIZE
+
+    reaching, n = [], 0
+    for e in (True, False):
+        for s_ in (True, False):
+            for c in (True, False):
+                sem = Sem(ctx.fb, {'e': e, 's': s_, 'c': c})
+                outs = TagInterp(sem).run(root_body, {})
+                n += len(outs)
+                if sem.reached:
+                    reaching.append({'e': e, 's': s_, 'c': c})
+    return reaching, n
+
+
 def r1_protection(ctx):
-    ctx.rule('C12.R1', 'P10 path-sensitive boolean abstraction: for every body of pavex_session that calls '
-             'ResponseCookies::insert, every abstract path state (over e=will_encrypt, s=will_sign, c=client().is_empty()) '
-             'reaching the call satisfies (e or s) and (c or e); P7: the inserted cookie derives from Session::finalize, the '
-             'names given to will_* derive from that cookie, and is_empty/finalize are applied to the same session.')
+    ctx.rule('C12.R1', 'P11 case evaluation: the public function of pavex_session from which ResponseCookies::insert is reachable is interpreted '
+             '(Option/Result algebra, `?`, private helpers entered with their argument values) for every valuation of e=will_encrypt, s=will_sign, '
+             'c=client().is_empty(); a path reaches the insertion only under valuations with (e or s) and (c or e); P7 (on the body with its '
+             'private helpers inlined): the inserted cookie derives from Session::finalize, the names given to will_* derive from that cookie, '
+             'and is_empty/finalize are applied to the same session.')
+    from ..callgraph import CallGraph
+    from ..inline import inlined
     sites = _insert_sites(ctx)
     ctx.floor('C12.R1', 'ResponseCookies::insert call sites in pavex_session', len(sites), 1)
-    named = {'e': lambda t: callee(t) == WILL_E, 's': lambda t: callee(t) == WILL_S, 'c': lambda t: callee(t) == IS_EMPTY}
+    cg = CallGraph(ctx.fb, [(CR, 'Rlib')])
+    relevant = {f for f in cg.reaching({INSERT, WILL_E, WILL_S, IS_EMPTY}) if f.startswith(CR + '::')}
+    roots = sorted(f for f in cg.reaching({INSERT}) if f.startswith(CR + '::')
+                   and not any(f in cg.edges.get(g, ()) for g in relevant if g != f))
+    ctx.floor('C12.R1', 'entry points from which the Set-Cookie insertion is reachable', len(roots), 1)
+    to_insert = {f for f in cg.reaching({INSERT})}
+    for r in roots:
+        # the body of the item (function, async block, closure) from which the insertion is made or a helper that makes it is called
+        bodies = [b for b in ctx.fb.bodies_of_item(CR, r) if any((callee(t) or '') in to_insert for _, t in b.calls())]
+        if not ctx.need('C12.R1', 'body of %s that leads to the insertion' % r, bodies):
+            continue
+        reaching, n = _protection_cases(ctx, bodies[0], relevant)
+        ctx.count('abstract_states_at_insert', n)
+        bad = [v for v in reaching if not ((v['e'] or v['s']) and (v['c'] or v['e']))]
+        ctx.ob('C12.R1', 'protected|%s' % r.replace('pavex_session::', ''), bool(reaching) and not bad, bodies[0].loc(),
+               '%d path(s) interpreted over 8 valuations; the Set-Cookie insertion is reached under %d of them; %s' % (
+                   n, len(reaching), 'all satisfy (will_encrypt or will_sign) and (client-state-empty or will_encrypt)' if not bad else
+                   'it is reached with %s — the protection invariant is not established' % bad))
     for body, bb, t in sites:
         fn = body.nroot.replace('pavex_session::', '')
-        states, sym, evals = states_at(body, [bb], named)
-        sts = states[bb]
-        ctx.count('abstract_states_at_insert', len(sts))
-        bad = []
-        for st in sts:
-            e, s, c = st.get('e'), st.get('s'), st.get('c')
-            ok = (e is True or s is True) and (c is True or e is True)
-            if not ok:
-                bad.append(st)
-        ctx.ob('C12.R1', 'protected|%s' % fn, bool(sts) and not bad, body.loc(bb, t),
-               '%d abstract path state(s) reach the Set-Cookie insertion; %s' % (
-                   len(sts), 'all satisfy (will_encrypt or will_sign) and (client-state-empty or will_encrypt)' if not bad else
-                   'state(s) %s reach it without the protection invariant being established (unknown = never tested on that path)' % bad))
+        body = inlined(ctx.fb, body)
+        bb, t = [(x, y) for x, y in body.calls() if callee(y) == INSERT][0]
         # provenance of the cookie and of the names
         defs = Defs(body)
         pl = op_place(t['args'][1])
